@@ -15,6 +15,7 @@ import sys
 import csv
 import logging
 from array import array
+import numbers
 from pathlib import Path
 import tempfile
 
@@ -176,9 +177,12 @@ def read_substitution_matrix(file):
 def detect_ndim(s):
     if np is not None and isinstance(s, np.ndarray):
         return s.ndim
-    if type(s) is list and len(s) > 0:
-        return detect_ndim(s[0]) + 1
-    if type(s) in [int, float]:
+    if isinstance(s, array):
+        return 1
+    if type(s) in [list, tuple] and len(s) > 0:
+        ndim = detect_ndim(s[0])
+        return None if ndim is None else ndim + 1
+    if isinstance(s, numbers.Number):
         return 0
     return None
 
@@ -236,6 +240,8 @@ class SeriesContainer:
                     self.detected_ndim = len(self.series[0][0])
                 else:
                     self.detected_ndim = 1
+            elif isinstance(self.series[0], array):
+                self.detected_ndim = 1
         else:
             self.series = series
 
